@@ -14,6 +14,7 @@ package main
 import (
 	"fmt"
 	"go/types"
+	"regexp"
 	"math/big"
 	"strings"
 )
@@ -53,8 +54,22 @@ func (l Leaf) Sort() Sort {
 
 var leavesCache = map[types.Type][]Leaf{}
 
+var typeKeyCache = map[types.Type]string{}
+var byteRe = regexp.MustCompile(`\bbyte\b`)
+var runeRe = regexp.MustCompile(`\brune\b`)
+var anyRe = regexp.MustCompile(`\bany\b`)
+
+// typeKey is the canonical name of a type (aliases byte/rune/any normalised).
 func typeKey(t types.Type) string {
-	return types.TypeString(t, nil)
+	if s, ok := typeKeyCache[t]; ok {
+		return s
+	}
+	s := types.TypeString(t, nil)
+	s = byteRe.ReplaceAllString(s, "uint8")
+	s = runeRe.ReplaceAllString(s, "int32")
+	s = anyRe.ReplaceAllString(s, "interface{}")
+	typeKeyCache[t] = s
+	return s
 }
 
 func leavesOf(t types.Type) []Leaf {
@@ -139,6 +154,7 @@ type AddrInfo struct {
 	Elem  bool       // base ref denotes an array object and Idx selects the element
 	Idx   *Term
 	Known bool
+	Key   string // if set: heap map name to use instead of the type of Root (ghost fields)
 }
 
 type Val struct {
@@ -293,7 +309,7 @@ func sameAddrShape(a, b *AddrInfo) bool {
 	if !a.Known || !b.Known {
 		return false
 	}
-	return a.Elem == b.Elem && a.Path == b.Path && types.Identical(a.Root, b.Root)
+	return a.Elem == b.Elem && a.Path == b.Path && a.Key == b.Key && types.Identical(a.Root, b.Root)
 }
 
 // iteVal merges two values of the same type.
